@@ -98,7 +98,7 @@ class Meter(object):
                 out = ('budget', str(e))
             except Exception as e:
                 out = ('raised', e)
-            except RecursionError as e:    # pragma: no cover  (subclass of Exception in 3.12, kept for clarity)
+            except SystemExit as e:        # a decoder that calls sys.exit(): finishes, by raising
                 out = ('raised', e)
         finally:
             self.active = False
